@@ -11,7 +11,8 @@
     [save] returns a flag: [false] when a look inside a writer raised (BSP.save raises, no file is written). *)
 From Coq Require Import List Arith.
 From Coq Require Import NArith.
-From SV Require Import SM.LazyLumps SM.LazyLumpsProofs Fmt.BspContainer Fmt.BspContainerProofs.
+From SV Require Import SM.LazyLumps SM.LazyLumpsProofs SM.LazyLumpsAppend Fmt.BspContainer Fmt.BspContainerProofs.
+From SV Require Bin.FindInsert.
 Import ListNotations.
 
 Section C10.
@@ -230,3 +231,17 @@ Theorem c10_container_l4d2_first_version_refuted :
   wf ex_compress std_layout ex_l4d2_ver = false /\ c_l4d2 ex_l4d2_ver = true /\
   andb (N.eqb (get32 f 4) (l4d2_version std_layout)) (N.eqb (get32 f 8) 0) = false.
 Proof. exact l4d2_first_version_refuted. Qed.
+
+(** ---------------------------------------------------------------------------------------------------------
+    Writers that append to a view they look at (instance obligation: writers only read or append).  In the lazy-lump
+    model a writer leaves the cached value of a dependency unchanged; that is what [find_or_insert] (C11's model
+    Bin/FindInsert.v) does whenever every requested item is already in the table, which is the case for values
+    parsed from the file (each reference was resolved from that table). *)
+Theorem c10_appending_writer_is_a_read_on_parsed_values : forall (l ks : list N), (forall k, In k ks -> In k l) ->
+  FindInsert.items (fst (FindInsert.fi_run (FindInsert.fi_init l) ks)) = l.
+Proof. exact find_or_insert_noop_on_parsed. Qed.
+
+(** The hypothesis cannot be dropped: a missing item is appended (the dummy-edge vertex before fix dae40a3). *)
+Theorem c10_appending_writer_missing_item_refuted :
+  FindInsert.items (fst (FindInsert.fi_run (FindInsert.fi_init [5; 6]%N) [6; 7]%N)) = [5; 6; 7]%N.
+Proof. exact append_when_missing. Qed.
